@@ -147,6 +147,24 @@ def run(rep, tier, rng):
                           {"combo": list(combo), "placement": pl, "entry": entry, "trait": t, "expected": e, "observed": g,
                            "request": ft_reqs[o["id"]]})
 
+    # ---- an explicit bound(..) in effect (shared, or on every trait): the accept / reject verdict must not depend on it ----
+    bd_reqs, bd_meta = [], []
+    for ci, combo in enumerate(combos):
+        form = ci % 3
+        tl = [ALL5 + ", bound()", ", ".join(t + "(bound())" for t in traits), ALL5 + ", bound(..)"][form]
+        pl = PLACEMENTS[ci % 3]
+        entry = "attr" if (ci // 3) % 2 else "derive"
+        bd_reqs.append(request(len(bd_reqs), combo, pl, entry, tl))
+        bd_meta.append((combo, pl, entry, form))
+    for o, (combo, pl, entry, form) in zip(C.expand(bd_reqs), bd_meta):
+        rep.evaluations += 5
+        rep.count("explicit_bound_points", 5)
+        for (t, e, g) in judge(o, combo, entry, traits):
+            rep.violation(sig_for(combo, t, e, g, pl, entry) + "|with-explicit-bound",
+                          f"{pl}/{entry}: with an explicit bound(..) in effect (form {form}): trait {t} expected {e}, expansion gave {g} for {M.render_attrs(combo, KEY, BY)}",
+                          {"combo": list(combo), "placement": pl, "entry": entry, "trait": t, "expected": e, "observed": g,
+                           "request": bd_reqs[o["id"]]})
+
     # ---- misplaced ignore/reverse/key/by on a type or a variant ----
     mis_reqs, mis_meta = [], []
     ARGS = {"ignore": "ignore", "reverse": "reverse", "key": "key = ::dxrt::k(&$)", "by": "by = ::dxrt::by_cmp"}
